@@ -82,6 +82,26 @@ def check_case(run, case, tier='quick'):
                     run.violation(f'honeywords --limit 9 wrote {len(r.guesses)} words', case); return
             elif big.exc is not None and not isinstance(big.exc, IndexError):
                 run.violation(f'random_walk raised {big.exc!r}', case, observed=big.stderr[-300:]); return
+        # ---- --limit on a resumed session: the first N guesses of the resumed run (a limited resume does not save, so the .sav can be reused)
+        if len(U.pops) >= 4:
+            kq = rng.randint(2, len(U.pops) - 1)
+            fired = {}
+            def trig(ev, ctx, kq=kq, fired=fired):
+                if ev[0] == 'POP' and ev[1] == kq and 'x' not in fired:
+                    fired['x'] = ctx.deliver('q')
+            session.drop_session(sn)
+            A = session.run_main(['-r', name, '-s', sn] + fl, trigger=trig)
+            if fired.get('x') and 'Done processing' not in A.stderr:
+                sav = open(session.session_files(sn)[0]).read()
+                Bref = session.run_main(['-r', name, '-s', sn, '--load'])
+                for n in sorted({1, 2, max(1, len(Bref.guesses) // 2), max(1, len(Bref.guesses) - 1), len(Bref.guesses) + 3, len(A.guesses) + 1, max(1, len(A.guesses) - 1)}):
+                    open(session.session_files(sn)[0], 'w').write(sav)
+                    r = session.run_main(['-r', name, '-s', sn, '--load', '-n', str(n)], max_guesses=len(Bref.guesses) + 1000)
+                    run.ev('limit_runs'); run.ev('limit_on_resumed_session_runs')
+                    if r.guesses != Bref.guesses[:n]:
+                        run.violation(f'--load --limit {n}: emitted {len(r.guesses)} guesses, expected the first {min(n, len(Bref.guesses))} of the resumed run '
+                                      f'(the first session had emitted {len(A.guesses)})', case, observed=r.guesses[:5], expected=Bref.guesses[:n][:5]); return
+                    run.case(h([case['spec']['base'], case['flags'], 'load', n]))
         # ---- status / help / quit requests from the keyboard thread must never reach stdout either, whatever the session's age
         from .. import sched
         U0, s0 = sched.run_scheduled(['-r', name, '-s', sn] + fl)
@@ -152,7 +172,7 @@ def check_error_paths(run, case):
         repo.drop_rules(name)
 
 def run(run, rng):
-    run.required_events = ['limit_runs', 'cli_runs', 'rulesets_with_every_N', 'random_walk_limit_runs', 'error_path_runs', 'status_request_runs']
+    run.required_events = ['limit_runs', 'cli_runs', 'rulesets_with_every_N', 'random_walk_limit_runs', 'error_path_runs', 'status_request_runs', 'limit_on_resumed_session_runs']
     run.min_distinct = 20
     run.exhaustive = True
     run.extra['exhaustive_scope'] = 'every N in 1..total+2 for explored rulesets with total <= 300 guesses (thorough: <= 1500); larger ones use boundary-targeted N'
